@@ -83,6 +83,24 @@ def sliced_state(st, goal, direct=False):
     return s2
 
 
+def skolem_state(st, at, keep=None):
+    """A state whose hypotheses are st's with every single-variable integer ForAll ALSO instantiated at the term `at`
+    (and, with keep, only the conjuncts keep(c) selects). Adding instances and dropping conjuncts only weakens the
+    hypotheses: sound for validity. Used to prove `forall j. body(j)` as body(c) for a fresh constant c."""
+    s2 = State()
+    pc = []
+    for c in st.pc:
+        conj = list(c.children()) if z3.is_and(c) else [c]
+        for d in conj:
+            if z3.is_quantifier(d) and d.is_forall() and d.num_vars() == 1 and d.var_sort(0) == z3.IntSort():
+                pc.append(z3.substitute_vars(d.body(), at))
+            if keep is None or keep(d):
+                pc.append(d)
+    s2.pc = pc
+    s2.trace = list(st.trace)
+    return s2
+
+
 def key_token_obligations(E, prefix_id, s, k, q):
     """KEY class of the strict parser: 1..250 bytes, no separator/control byte. Two clauses; the second one
     ('not empty') is decided on the conjuncts that mention the key directly."""
@@ -1558,3 +1576,248 @@ def verify_public_fetch(E, mode="exception"):
             elif is_subclass(o.val.cls, "Exception"):
                 E.oblige("%s/post@raise(Exception:Sync)%s" % (sid, E.case_suffix), s, sync(E, s, me), func=q)
     E.contracts.pop(C + "._fetch_cmd", None)
+
+
+# ------------------------------------------------------------------ get_many / gets_many wrappers
+
+def fetch_many_contract(E, st, args, kwargs, selfv, site):
+    """Contract of Client._fetch_cmd for a key collection (verified by verify_fetch_many under `requires n_keys >= 1`
+    for get/gets): records the call; raises (input error / failure) or returns some result map."""
+    names = ["name", "keys", "expect_cas", "key_prefix", "expire"]
+    b = dict(zip(names, args))
+    b.update(kwargs)
+    keys = b["keys"]
+    if not isinstance(keys, ghost.PyArrV):
+        raise OutOfReach("_fetch_cmd contract (many keys): key collection of kind %s" % keys.kind)
+    a, n = keys.get(st)
+    rec = st.heap[keys.ref]
+    if keys.oneshot and len(rec) > 2 and rec[2]:
+        n = z3.IntVal(0)                              # an iterator that was already walked yields nothing
+    st.ghost.setdefault("fetch_calls", []).append(dict(b, arr=a, n=n, sync_at_call=sync(E, st, selfv)))
+    bad = st.fork()
+    res = OpaqueV(z3.Const("fetch_cmd_result", Py), tag="result")
+    st.ghost["fetch_result"] = res
+    return [Outcome("raise", bad, ExcV("Exception", exact=False)), Outcome("return", st, res)]
+
+
+def verify_public_fetch_many(E, mode="exception", iter_kinds=("re-iterable", "one-shot")):
+    """Client.get_many / gets_many: an empty key collection of ANY kind (list, tuple, set, dict view, one-shot iterator)
+    returns {} without an exchange; otherwise exactly one _fetch_cmd call with the verb of the method, the caller's keys in
+    order (requires of _fetch_cmd's contract: at least one key - 'get\r\n' is not a command), the configured prefix, and its
+    result is returned as it is."""
+    install_env(E, mode)
+    E.contracts[C + "._fetch_cmd"] = fetch_many_contract
+    for meth, verb, cas in (("get_many", "get", False), ("gets_many", "gets", True)):
+        for ik in iter_kinds:
+            q = "%s.%s" % (C, meth)
+            E.case_suffix = "/" + ik
+            st = State()
+            set_faults(st, mode)
+            me, sock0 = mk_client(st, True)
+            f = st.heap[me.ref]
+            st.ghost["fetch_calls"] = []
+            n = z3.Int("n_keys")
+            st.assume(n >= 0)
+            karr = z3.Const("caller_keys", ghost.PARR)
+            keys = ghost.new_pyarr(st, karr, n, oneshot=(ik == "one-shot"))
+            wid, sid, rid_ = pid(E, "wire", q), pid(E, "sync", q), pid(E, "result", q)
+            for o in E.run_function(q, st, [keys], {}, selfv=me):
+                s = o.st
+                calls = s.ghost["fetch_calls"]
+                if len(calls) > 1:
+                    E.oblige("%s/at-most-one-exchange%s" % (wid, E.case_suffix), s, z3.BoolVal(False), func=q)
+                    continue
+                if not calls:
+                    ok = o.kind == "return" and isinstance(o.val, DictV) and len(s.heap[o.val.ref]) == 0
+                    E.oblige("%s/no-exchange-only-for-an-empty-key-collection-and-the-result-is-empty%s" % (rid_, E.case_suffix), s,
+                             z3.And(z3.BoolVal(bool(ok)), n == 0), func=q)
+                    E.oblige("%s/post(Sync:nothing-sent-nothing-read)%s" % (sid, E.case_suffix), s, sync(E, s, me), func=q)
+                    continue
+                c = calls[0]
+                name_ok = isinstance(c["name"], BytesV) and z3.is_string_value(z3.simplify(c["name"].t)) and z3.simplify(c["name"].t).as_string() == verb
+                ec = E.truth(c["expect_cas"], s)
+                ec = ec if isinstance(ec, bool) else (True if z3.is_true(z3.simplify(ec)) else (False if z3.is_false(z3.simplify(ec)) else None))
+                j = z3.Int(fresh_name("kj"))
+                E.oblige("%s/requires(_fetch_cmd:at-least-one-key)%s" % (wid, E.case_suffix), s, c["n"] >= 1, func=q,
+                         model_vars=[("n_keys", n)], meta={"many": meth, "iter_kind": ik})
+                E.oblige("%s/one-%s-command-for-exactly-the-callers-keys-in-order-with-the-configured-prefix%s" % (wid, verb, E.case_suffix), s,
+                         z3.And(z3.BoolVal(bool(name_ok and ec is cas and c.get("key_prefix") is f["key_prefix"]
+                                                and (c.get("expire") is None or isinstance(c.get("expire"), NoneV)))),
+                                c["n"] == n, z3.Implies(z3.And(0 <= j, j < n), c["arr"][j] == karr[j])), func=q)
+                E.oblige("%s/Sync-at-exchange%s" % (sid, E.case_suffix), s, c["sync_at_call"], func=q)
+                if o.kind == "return":
+                    E.oblige("%s/post@ret(the-result-of-the-exchange-is-returned-as-it-is)%s" % (rid_, E.case_suffix), s,
+                             z3.BoolVal(o.val is s.ghost.get("fetch_result")), func=q)
+    E.case_suffix = ""
+    E.contracts.pop(C + "._fetch_cmd", None)
+
+
+# ------------------------------------------------------------------ multi-key fetch (get_many / gets_many)
+
+def verify_fetch_many(E, mode="exception", names=("get", "gets"), iter_kinds=("re-iterable", "one-shot")):
+    q = C + "._fetch_cmd"
+    install_env(E, mode)
+    E.contracts[B + ":check_key_helper"] = check_key_contract
+    E.inline |= {C + "._extract_value"}
+    for name in names:
+        for ik in iter_kinds:
+            E.case_suffix = "/%s,many-keys,%s" % (name, ik)
+            _fetch_many_case(E, mode, q, name, name in ("gets", "gats"), ik == "one-shot")
+    E.case_suffix = ""
+
+
+def _fetch_many_case(E, mode, q, name, expect_cas, oneshot):
+    st = State()
+    set_faults(st, mode)
+    me, sock0 = mk_client(st, True)
+    f = st.heap[me.ref]
+    n = z3.Int("n_keys")
+    st.assume(n >= 1)
+    Kb, Ku = z3.Function("MK_bytes", I, S), z3.Function("MK_utf8", I, S)
+    is_b = z3.Function("MK_is_bytes", I, z3.BoolSort())
+    base_elem = mk_key_elem("MK")
+    elem = lambda i: [(v, cons + [is_b(i) == z3.BoolVal(isinstance(v, BytesV))], lab) for v, cons, lab in base_elem(i)]
+    karr = z3.Const("caller_keys", ghost.PARR)
+    keys = ghost.new_pyarr(st, karr, n, elem=elem, oneshot=oneshot)
+
+    def Kinj(j):
+        return z3.If(is_b(j), z3.Function("py_bytes", S, Py)(Kb(j)), z3.Function("py_keystr", S, Py)(Ku(j)))
+
+    def wire(j):
+        return z3.Concat(f["key_prefix"].t, z3.If(is_b(j), Kb(j), Ku(j)))
+    a1, a2 = z3.Ints("mk1 mk2")
+    st.assume(z3.ForAll([a1], z3.Implies(z3.And(0 <= a1, a1 < n), karr[a1] == Kinj(a1))),
+              # requires (from the statement): wire keys pairwise distinct, hence distinct key objects
+              z3.ForAll([a1, a2], z3.Implies(z3.And(0 <= a1, a1 < a2, a2 < n), z3.And(wire(a1) != wire(a2), Kinj(a1) != Kinj(a2)))))
+    # the model of a str key (is-ASCII flag consistent with its encoding) holds for every position
+    Ka, Kn = z3.Function("MK_ascii", I, z3.BoolSort()), z3.Function("MK_ncp", I, I)
+    st.assume(z3.ForAll([a1], z3.And(Ka(a1) == z3.InRe(Ku(a1), z3.Star(z3.Range(chr(0), chr(127)))), Kn(a1) >= 0,
+                                    z3.If(Ka(a1), Kn(a1) == z3.Length(Ku(a1)), z3.And(Kn(a1) < z3.Length(Ku(a1)), 4 * Kn(a1) >= z3.Length(Ku(a1)))))))
+    N = z3.Int("n_items")
+    st.assume(N >= 0)
+    M = fetch_model(N, expect_cas)
+    U, Hdr, Dat, W, Cs, Fl, Term = M["U"], M["Hdr"], M["Dat"], M["W"], M["Cs"], M["Fl"], M["Term"]
+    idx = z3.Function("requested_index", I, I)          # faithful server: item i answers requested key idx(i); each key at most once
+    i1, i2 = z3.Ints("it1 it2")
+    st.assume(z3.ForAll([i1], z3.Implies(z3.And(0 <= i1, i1 < N), z3.And(0 <= idx(i1), idx(i1) < n, W(i1) == wire(idx(i1))))),
+              z3.ForAll([i1, i2], z3.Implies(z3.And(0 <= i1, i1 < i2, i2 < N), idx(i1) != idx(i2))))
+    st.ghost["on_sendall"] = on_sendall_reply(lambda s, d: U(0))
+    st.ghost["reads"] = 0
+    st.ghost["it"] = z3.IntVal(0)
+    st.assume(*M["facts"](z3.IntVal(0)))
+
+    def hint(s_):
+        it = s_.ghost["it"]
+        tail = z3.Concat(Dat(it), CRLF, U(it + 1))
+        return [(it < N, Hdr(it), tail, U(it), [U(it) == z3.Concat(Hdr(it), CRLF, tail), z3.Not(z3.Contains(z3.Concat(Hdr(it), z3.StringVal("\r")), CRLF))]),
+                (it >= N, Term, z3.StringVal(""), U(it), [U(it) == z3.Concat(Term, CRLF), z3.Not(z3.Contains(z3.Concat(Term, z3.StringVal("\r")), CRLF))])]
+    st.ghost["unit_hint"] = hint
+    st.ghost["value_hint"] = lambda s_: (Dat(s_.ghost["it"]), U(s_.ghost["it"] + 1))
+    st.ghost["remap_hint"] = lambda s_: idx(s_.ghost["it"] - 1)     # (_readvalue has already advanced the item counter)
+    sid, wid, rt = pid(E, "sync", q), pid(E, "wire", q), pid(E, "roundtrip", q)
+
+    def on_map(E_, s, res):
+        # cut right after the comprehension: the list of wire keys is prefix ++ enc(key_j), position by position
+        if isinstance(res, ghost.BytesArrV):
+            pa, pn = res.get(s)
+            j = z3.Int("mj2")
+            fact = z3.And(pn == n, z3.ForAll([j], z3.Implies(z3.And(0 <= j, j < n), pa[j] == wire(j))))
+            E_.oblige("%scut/prefixed_keys-is-prefix-plus-encoded-key-position-by-position%s" % (E_.oid_prefix, E_.case_suffix), s, fact, kind="lemma", func=q)
+            s.assume(fact)
+    st.ghost["on_map"] = on_map
+
+    def val_of(j):
+        d = deser(Kinj(idx(j)), Dat(j), Fl(j))
+        return z3.Function("py_tuple2", Py, Py, Py)(d, z3.Function("py_bytes", S, Py)(Cs(j))) if expect_cas else d
+
+    def havoc(E_, s):
+        cur = s.heap[me.ref]["sock"]
+        if isinstance(cur, ghost.SockV):
+            r = s.heap[cur.ref]
+            r["pos"] = z3.Int(fresh_name("pos"))
+            s.assume(r["pos"] >= 0, r["pos"] <= z3.Length(r["inp"]))
+        s.ghost["it"] = z3.Int(fresh_name("it"))
+        return [s]
+
+    def mk_result(E_, s, nm):
+        return [(ghost.new_symmap(s, n=z3.Int(fresh_name("nres"))), [])]
+
+    def mk_bytes(E_, s, nm):
+        return [(BytesV(z3.String(fresh_name(nm))), [])]
+
+    def result_facts(vals, present, it):
+        j = z3.Int("rj")
+        x = z3.Const("rx", Py)
+        return [("every-item-read-so-far-is-stored-under-the-callers-own-key-with-its-own-data",
+                 z3.ForAll([j], z3.Implies(z3.And(0 <= j, j < it), z3.And(z3.Select(present, Kinj(idx(j))), z3.Select(vals, Kinj(idx(j))) == val_of(j))))),
+                ("no-other-key-in-the-result", z3.ForAll([x], z3.Implies(z3.Select(present, x), z3.Exists([j], z3.And(0 <= j, j < it, x == Kinj(idx(j)))))))]
+
+    def inv(E_, s, i):
+        cur = s.heap[me.ref]["sock"]
+        buf, res = s.env.get("buf"), s.env.get("result")
+        it = s.ghost["it"]
+        if not isinstance(cur, ghost.SockV) or not isinstance(buf, BytesV):
+            return [("kinds", z3.BoolVal(False))]
+        parts = [("stream-position", z3.Concat(buf.t, cur.unread(s)) == U(it)), ("items-consumed", z3.And(it >= 0, it <= N)),
+                 ("socket-still-open", z3.BoolVal(s.heap[cur.ref]["close_calls"] == 0))]
+        if isinstance(res, ghost.SymMapV):
+            vals, _n, present = res.get(s)
+            parts += result_facts(vals, present, it)
+        elif isinstance(res, DictV) and not s.heap[res.ref]:
+            parts.append(("result-empty-before-the-first-item", it == 0))
+        else:
+            return [("kinds", z3.BoolVal(False))]
+        if E_.inv_mode == "assume":
+            parts.append(("unit", z3.And(M["facts"](it))))
+        return parts
+    E.loop_specs[(q, 0)] = LoopSpec(inv, vars={"result": mk_result, "buf": mk_bytes}, shape="while True", havoc=havoc)
+    for o in E.run_function(q, st, [BytesV(name.encode()), keys, BoolV(expect_cas)], {"key_prefix": f["key_prefix"]}, selfv=me):
+        s = o.st
+        cur = s.heap[me.ref]["sock"]
+        socks = [r for r in s.heap.values() if isinstance(r, dict) and "inp" in r]
+        sent = [r for r in socks if r.get("sends", 0) > 0]
+        it = s.ghost["it"]
+        if sent:
+            lm = s.ghost.get("last_map")
+            ok = lm is not None and isinstance(lm["result"], ghost.BytesArrV)
+            if ok:
+                pa, pn = lm["result"].get(s)
+                # forall j < n: token j == prefix + enc(key j), a legal KEY token  -- proved at a fresh constant j
+                j = z3.Int(fresh_name("wj"))
+                sk = skolem_state(s, j, keep=lambda d: not z3.is_quantifier(d) and not ({"U", "Hdr", "Dat", "W"} & symbols_of(d)))
+                for lab, hyp in (("bytes-key", is_b(j)), ("str-key", z3.Not(is_b(j)))):      # exhaustive case split on the key's kind
+                    E.oblige("%s/every-key-token-is-the-prefixed-encoded-key-of-its-position-and-a-legal-KEY[%s]%s" % (wid, lab, E.case_suffix), sk,
+                             z3.Implies(z3.And(0 <= j, j < n, hyp), z3.And(pa[j] == wire(j), z3.Length(pa[j]) <= 250, nows(pa[j]))), func=q)
+                goal = z3.And(pn == n,
+                              sent[0]["out"] == z3.Concat(z3.StringVal(name), z3.StringVal(" "), ghost.join_sep(pa, pn, z3.StringVal(" ")), CRLF),
+                              z3.BoolVal(len(sent) == 1 and sent[0].get("sends", 0) == 1))
+                s_w = sliced_state(s, goal, direct=True)
+                s_w.pc = [c for c in s_w.pc if "forall" not in c.sexpr()]      # the format identity needs no quantified fact
+            else:
+                goal, s_w = z3.BoolVal(False), s
+            E.oblige("%s/command-is-'%s <key1> <key2> ...'-with-the-tokens-in-order-sent-once%s" % (wid, name, E.case_suffix), s_w, goal, func=q)
+        if o.kind == "return":
+            ignored = o.site is not None and o.site[0] == "ret" and o.site[1] in swallow_returns(q)
+            if ignored:
+                E.oblige("%s/post@ret(ignore_exc:failure-returns-the-empty-result-with-the-connection-closed)%s" % (pid(E, "miss", q), E.case_suffix), s,
+                         z3.And(f["ignore_exc"].t, z3.BoolVal(isinstance(o.val, DictV) and len(s.heap[o.val.ref]) == 0 and isinstance(cur, NoneV))), func=q)
+                continue
+            E.oblige("%s/post@ret(Sync:the-whole-reply-and-nothing-else-was-consumed)%s" % (sid, E.case_suffix), s, z3.And(sync(E, s, me), it == N), func=q)
+            if isinstance(o.val, ghost.SymMapV):
+                vals, _n, present = o.val.get(s)
+                for label, g in result_facts(vals, present, N):
+                    E.oblige("%s/post@ret(%s)%s" % (rt, label, E.case_suffix), s, g, func=q)
+            elif isinstance(o.val, DictV) and not s.heap[o.val.ref]:
+                E.oblige("%s/post@ret(no-items:empty-result)%s" % (rt, E.case_suffix), s, N == 0, func=q)
+            else:
+                E.oblige("%s/post@ret(result-shape)%s" % (rt, E.case_suffix), s, z3.BoolVal(False), func=q)
+        elif is_subclass(o.val.cls, "Exception"):
+            before_io = not sent and s.ghost.get("reads", 0) == 0
+            goal = sync(E, s, me) if before_io else z3.BoolVal(isinstance(cur, NoneV) and closed_all(s, sock0))
+            E.oblige("%s/post@raise(Exception:Sync-or-closed)%s" % (sid, E.case_suffix), s, goal, func=q, meta={"raised": o.val.cls})
+            if o.val.cls == "KeyError":
+                # the server only returns requested keys: the remapping must find each of them
+                E.oblige("%s/post@raise(no-KeyError-for-a-requested-key:the-caller's-collection-is-remapped-completely)%s" % (rt, E.case_suffix), s,
+                         z3.BoolVal(False), func=q, meta={"iterable": "one-shot" if oneshot else "re-iterable"})
+        else:
+            E.oblige("%s/post@raise(BaseException:Sync)%s" % (sid, E.case_suffix), s, sync(E, s, me), func=q)
